@@ -95,6 +95,7 @@ def gen(rng, idx, tier):
         w["pause"] = {str(i): rng.choice([0.001, 0.01, 0.05, 0.5]) for i in range(60) if rng.random() < p}
     if fault:
         w["fail_at"] = rng.randrange(0 if kind != "waveshare" else 1, 14)
+        w["fail_exc"] = rng.choice(["reset", "reset", "etimedout", "epipe"])
     entry["w"] = w
     script = [entry]
     if fault:
